@@ -198,6 +198,7 @@ pdgssv(int_t nprocs, SuperMatrix *A, int_t *perm_c, int_t *perm_r,
     if ( A->Stype == SLU_NR ) {
 	NRformat *Astore = A->Store;
 	AA = (SuperMatrix *) SUPERLU_MALLOC( sizeof(SuperMatrix) );
+	if ( !AA ) SUPERLU_ABORT("SUPERLU_MALLOC fails for AA.");
 	dCreate_CompCol_Matrix(AA, A->ncol, A->nrow, Astore->nnz, 
 			       Astore->nzval, Astore->colind, Astore->rowptr,
 			       SLU_NC, A->Dtype, A->Mtype);
